@@ -1,22 +1,44 @@
 package index
 
 import (
+	"errors"
+	"fmt"
+	"io/fs"
 	"log"
 	"os"
-
-	"github.com/spq/pkappa2/internal/tools"
+	"path/filepath"
+	"strings"
 )
+
+// mergedFilename names an output of a merge after the oldest merged index.
+// The order of the indexes is restored from the file names when the manager
+// starts, and the outputs take the place of their inputs in that order: a name
+// made from the current time would sort behind an index that was created
+// earlier but added to the list while the merge was running.
+func mergedFilename(indexDir string, oldest *Reader, n int) string {
+	stem := strings.TrimSuffix(filepath.Base(oldest.filename), ".idx")
+	return filepath.Join(indexDir, fmt.Sprintf("%s.m%04d.idx", stem, n))
+}
 
 func Merge(indexDir string, indexes []*Reader) ([]*Reader, error) {
 	ws := []*Writer{}
 	rs := []*Reader{}
+	nextName := 0
 	err := func() error {
 		for idxIdx := len(indexes); idxIdx > 0; {
 			idxIdx--
 			idx := indexes[idxIdx]
 			for wIdx := 0; wIdx <= len(ws); wIdx++ {
 				if wIdx == len(ws) {
-					w, err := NewWriter(tools.MakeFilename(indexDir, "idx"))
+					fn := mergedFilename(indexDir, indexes[0], nextName)
+					for nextName++; ; nextName++ {
+						// never overwrite a file left behind by an earlier merge, it may be one of the inputs
+						if _, err := os.Stat(fn); errors.Is(err, fs.ErrNotExist) {
+							break
+						}
+						fn = mergedFilename(indexDir, indexes[0], nextName)
+					}
+					w, err := NewWriter(fn)
 					if err != nil {
 						return err
 					}
